@@ -76,7 +76,7 @@ Lemma calc_provider_amount_bounds pd P u :
   P * PREC * PREC * r <= u * pd * PREC + P * PREC * PREC + P * pd /\
   u * pd * PREC <= P * PREC * PREC * r + P * PREC * PREC + P * pd.
 Proof.
-  intros Hpd HP Hu r. unfold r, calc_provider_amount, dec_of_int. pose proof PREC_pos as HD.
+  intros Hpd HP Hu r. unfold r, calc_provider_amount, dec_of_int. destruct (Z.eqb_spec P 0) as [E0|_]; [lia|]. pose proof PREC_pos as HD.
   assert (HD2 : 2 <= PREC) by (pose proof PREC_val; pose proof HALF_pos; lia).
   set (q := dec_quo (u * PREC) (P * PREC)).
   assert (Hq0 : 0 <= q) by (apply dec_quo_nonneg; nia).
